@@ -16,7 +16,10 @@ var globalAssumptions = []string{
 	"append is modelled as copy-on-append (result has a fresh backing array); effects of in-place append visible through aliases are not modelled",
 	"library functions are represented by the hand-written specs in govc/calls.go (strings, strconv, fmt, sort, utf8, runewidth, filepath); unlisted library calls return arbitrary well-typed values and do not write the package heap except as listed in govc/modset.go",
 	"closed world: the implementers of package interfaces are the ones in the package; goroutines, channels and select are not modelled (functions using them are verified as sequential code)",
-	"nullability facts (verif_contracts_auto.go) are inferred by a Houdini pass and re-verified on every run; preconditions of exported entry points that no in-package call site constrains are assumptions on API callers",
+	"nullability facts (verif_contracts_auto.go) are inferred by a Houdini pass and re-verified on every run; preconditions of exported entry points that no in-package call site constrains are assumptions on API callers; functions only called through function values get no inferred precondition; containers filled by reflection-based decoding get no inferred element facts",
+	"assumed about gopkg.in/yaml.v3: a mapping node has an even number of children, only sequence/mapping/document nodes have children, children are never nil (assume_inv / nonnil_elems lines of verif_contracts_parse.go)",
+	"pure spec functions stand for library results (index, hasprefix, toslash, abspath, recompile/rematch, globmatch, strwidth, jsonbad, exitcode, issorted, errtext): only the properties stated in govc/calls.go are known about them",
+	"obligations of the syntactic disciplines (forbid-call, loop-complete/nobreak/noreturn, format-const, map-order, shared-write, immutable-store, folded / nlfree) are never assumed after being checked; every function has an entry and an end vacuity probe",
 }
 
 type evSample struct {
